@@ -414,6 +414,17 @@ def run(rec):
             if tuple(got) != want:
                 rec.violation('parse_host-mismatch', {'host': host, 'default': default, 'got': got, 'want': want})
     unicode_phase(rec)
+    # very long inputs (header values / paths of 64 KiB and more): every internal path once
+    li = 0
+    for n in ((65536, 100001) if rec.tier == 'quick' else (65535, 65536, 100001, 300001)):
+        for unit in ('a', '%41', '%c3%A9', 'é', '+', '%', '%4', 'a%zz', '😀', '/a?b=c&d', '%F0%9F%98%80x'):
+            li += 1
+            if li % rec.nshards != rec.shard:
+                continue
+            t = (unit * (n // len(unit) + 1))[:n]
+            check_string(rec, t)
+            rec.case(('long', unit, n))
+            rec.count('long_inputs')
     if rec.shard == 0 and rec.mode == 'pure':
         authority_grammar(rec)
     rec.exhaustive = True
@@ -444,6 +455,7 @@ def run(rec):
     threaded_phase(rec)
     rec.floor('mon.decode', 1000)
     rec.floor('unicode.codepoints', 2000)
+    rec.floor('long_inputs', 20)
     rec.floor('unicode.predicate_strings', 500)
     rec.floor('mon.threaded_decode', 200)
     rec.floor('random.joiner_path', 10)
